@@ -53,6 +53,12 @@ def rule_split(ctx, F, rule="R1"):
                 out.add(x)
         return out
 
+    # the loop-carried 'has data' flag: the bool loop variable the epilogue branches on
+    has_data_locals = set()
+    for p in paths:
+        for (t, v, s) in p.conds:
+            if t[0] == "loop" and t[2][0] == "local" and t[2][2] == "bool":
+                has_data_locals.add(t[2][1])
     kf_time = {f["ty"]: f["name"] for f in F.adt("mina_core::timeline::Keyframe")["variants"][0]["fields"]}
     n_body = n_epi = 0
     for p in paths:
@@ -90,6 +96,19 @@ def rule_split(ctx, F, rule="R1"):
                     synth.append((e, f))
                 else:
                     data_frames.append((e, f))
+            # every iteration must branch directly on the getter's own result: otherwise the rule cannot tell for which
+            # keyframes a frame is produced (fail closed - e.g. a value substituted through or_else/unwrap_or)
+            ctx.ob(rule, lab + "/branches-on-getter-result", gdec in (0, 1),
+                   "whether a frame is produced must be decided by the getter's result for this keyframe and nothing else "
+                   "(the row does not branch on it)", body["span"], trace_of(p), what="frame-not-decided-by-getter")
+            # the 'has data' flag may be raised only on the Some arm
+            for l in has_data_locals:
+                v = p.store.get(("L", 0, l))
+                raised = v is not None and v[0] != "loop"
+                ctx.ob(rule, lab + "/has-data-only-with-data", (not raised) or (gdec == 1 and v == pse.mk_bool(True)),
+                       "the sub-timeline may be marked as having data only by a keyframe that defines the property "
+                       "(flag becomes %s on a row with getter outcome %s)" % (show(v) if v else "-", gdec),
+                       body["span"], trace_of(p), what="has-data-without-data")
             # (a) data frame only on the Some arm, with (keyframe position, payload, current easing)
             if gdec == 1:
                 ok = len(data_frames) == 1
